@@ -381,6 +381,23 @@ theorem redirect_idem {s s' : SurveyState} (h : redirectSearch s = .ok s') : red
       simp
     simp only [h1, h2]
 
+theorem redirect_keeps {s s' : SurveyState} (h : redirectSearch s = .ok s') :
+    s'.triggerRefs = s.triggerRefs ∧ s'.names = s.names := by
+  unfold redirectSearch at h
+  split at h
+  · cases h
+  · simp only [Except.ok.injEq] at h
+    subst h
+    exact ⟨rfl, rfl⟩
+
+theorem nsAppend_keeps (s : SurveyState) : (nsAppend s).triggerRefs = s.triggerRefs ∧ (nsAppend s).names = s.names := by
+  unfold nsAppend
+  split <;> exact ⟨rfl, rfl⟩
+
+theorem validate_congr {s s' : SurveyState} (h1 : s'.triggerRefs = s.triggerRefs) (h2 : s'.names = s.names) :
+    validateTriggers s' = validateTriggers s := by
+  simp [validateTriggers, h1, h2]
+
 /-! ### string order, sorted iteration -/
 
 theorem leStr_total : ∀ a b : Str, (leStr a b || leStr b a) = true
